@@ -13,7 +13,11 @@ Two uses of the real SDK:
                  every other live qubit is inspected (model-free oracle).
 
 A scenario is a plain dict:
-  hw      "generic" | "nv" | "nvc" (NV hardware config + NV transpiler)
+  hw      "generic" | "nv" | "nvc" (NV hardware config + NV transpiler), all with 7 qubits; or a swept
+          configuration "g<k>" = GenericHardwareConfig(k), "n<k>" = NVHardwareConfig(k), "c<k>" = NV(k) +
+          NV transpiler, with k also the application's qubit budget
+  form10  deliver the link-layer responses as qlink-interface 1.0 objects (converted by the real
+          `response_from_qlink_1_0`), Bell state as the integer the SDK reads
   api     "recv_keep" | "recv_keep_with_info" | "recv_rsp" | "recv_rsp_with_info" | "recv_measure"
   mode    "plain" | "post" (post routine, not sequential) | "seq" (post routine, sequential)
   n       number of pairs;  live  number of other live qubits;  expect  expect_phi_plus
@@ -69,16 +73,30 @@ def render(cmd):
 # ------------------------------------------------------------------ building a scenario
 
 
+def hw_kind(hw):
+    """(kind, qubit count) of a hardware name: kind 'generic' or 'nv' (the config CLASS)."""
+    if hw == "generic":
+        return "generic", MAX_QUBITS
+    if hw in ("nv", "nvc"):
+        return "nv", MAX_QUBITS
+    if len(hw) >= 2 and hw[0] in "gnc" and hw[1:].isdigit():
+        return ("generic" if hw[0] == "g" else "nv"), int(hw[1:])
+    raise ValueError(hw)
+
+
+def comm_qubits(hw):
+    """communication qubits of the configuration, as the real config object reports them"""
+    return _hardware(hw)["hardware_config"].comm_qubit_count
+
+
 def _hardware(hw):
     from netqasm.sdk.transpile import NVSubroutineTranspiler
-    if hw == "generic":
-        return dict(hardware_config=GenericHardwareConfig(MAX_QUBITS), max_qubits=MAX_QUBITS)
-    if hw == "nv":
-        return dict(hardware_config=NVHardwareConfig(MAX_QUBITS), max_qubits=MAX_QUBITS)
-    if hw == "nvc":
-        return dict(hardware_config=NVHardwareConfig(MAX_QUBITS), compiler=NVSubroutineTranspiler,
-                    max_qubits=MAX_QUBITS)
-    raise ValueError(hw)
+    kind, k = hw_kind(hw)
+    cfg = GenericHardwareConfig(k) if kind == "generic" else NVHardwareConfig(k)
+    out = dict(hardware_config=cfg, max_qubits=k)
+    if hw == "nvc" or hw[0] == "c":
+        out["compiler"] = NVSubroutineTranspiler
+    return out
 
 
 def prepare_live(q, k):
@@ -259,6 +277,20 @@ class BellConn(P.PipelineConnection):
         i = self.delivered
         b = sc["bells"][i]
         self.delivered += 1
+        if sc.get("form10"):
+            import qlink_interface as ql10
+            common = dict(create_id=0, directionality_flag=1, sequence_number=i, purpose_id=0,
+                          remote_node_id=1, goodness=0, bell_state=int(b))
+            if sc["api"] == "recv_measure":
+                ex._handle_epr_response(ql10.ResMeasureDirectly(
+                    measurement_outcome=sc["raw"][i], measurement_basis=ql10.MeasurementBasis(0), **common))
+                return True
+            p = self._fresh_physical()
+            r = self.n_local + i
+            _write_pair(ex, p, r, BELL_VECS[b])
+            self.pairs.append((p, r, b))
+            ex._handle_epr_response(ql10.ResCreateAndKeep(logical_qubit_id=p, time_of_goodness=0, **common))
+            return True
         if sc["api"] == "recv_measure":
             raw = sc["raw"][i]
             ex._handle_epr_response(LinkLayerOKTypeM(
@@ -325,7 +357,7 @@ def execute(sc):
     n, live_n = sc["n"], sc["live"]
     # local physical qubits: live ones, the pairs' arrival qubits, and on NV the memory qubits the
     # states are moved to plus one relocation target
-    n_local = live_n + n + (n + 1 if sc["hw"] != "generic" else 0)
+    n_local = _n_local(sc["hw"], live_n, n)
     ex = P.StateVectorExecutor(name="alice", n_phys=n_local + n)
     sock = EPRSocket("bob")
     conn = BellConn("alice", executor=ex, epr_sockets=[sock], **_hardware(sc["hw"]))
@@ -512,6 +544,13 @@ class EndConn(P.PipelineConnection):
             _write_pair(ex, gc, gr, BELL_VECS[b])
             link["pairs"].append({"create": pc, "recv": pr, "bell": b})
         p = link["pairs"][i][self.role]
+        if link.get("form10"):
+            import qlink_interface as ql10
+            ex._handle_epr_response(ql10.ResCreateAndKeep(
+                create_id=0, directionality_flag=1 if self.role == "recv" else 0, sequence_number=i,
+                purpose_id=0, remote_node_id=self.peer_id, goodness=0, bell_state=int(b),
+                logical_qubit_id=p, time_of_goodness=0))
+            return True
         ex._handle_epr_response(LinkLayerOKTypeK(
             type=ReturnType.OK_K, create_id=0, logical_qubit_id=p,
             directionality_flag=1 if self.role == "recv" else 0, sequence_number=i, purpose_id=0,
@@ -520,7 +559,7 @@ class EndConn(P.PipelineConnection):
 
 
 def _n_local(hw, live, n):
-    return live + n + (n + 1 if hw != "generic" else 0)
+    return live + n + (n + 1 if hw_kind(hw)[0] != "generic" else 0)
 
 
 def execute_both(sc):
@@ -537,7 +576,7 @@ def execute_both(sc):
     offset = {"create": 0, "recv": nl["create"]}
     n_total = nl["create"] + nl["recv"]
     shared = {}
-    link = {"pairs": [], "n_local": nl, "offset": offset}
+    link = {"pairs": [], "n_local": nl, "offset": offset, "form10": sc.get("form10", False)}
     obs = {"status": "ok"}
     conns = []
     try:
